@@ -1009,6 +1009,68 @@ def h_lookup(cfg):
     check(len(W.tasks) == len(members), 'C05 len(WBS.tasks)')
 
 
+def h_lookup_mixed(cfg):
+    """Ids of two types (int and str) inside one WBS: lookup is exact in value AND type.  The type of every id and of
+    the key is a fork; the numeric value is symbolic in a small range; a str id is the decimal text of its value, so
+    1 and '1' meet.  str() of a symbolic int forks on its value for the time of this harness (pjplan may render ids)."""
+    import zlib
+    N = cfg['N']
+    lo, hi = cfg.get('range', (0, 2))
+    kinds = [choose(f'kind{i}', 2) for i in range(N)]
+    parent = [-1] * N
+    for i in range(1, N):
+        parent[i] = choose(f'mpar{i}', i + 1) - 1
+    vals = [fresh_int(f'v{i}', lo, hi) for i in range(N)]
+    qkind = choose('qkind', 2)
+    qv = fresh_int('q', lo, hi + 1)
+    note('desc', f'mixed ids kinds={kinds} parent={parent} qkind={qkind} :: W[q]')
+    note('class', zlib.crc32(repr((kinds, parent, qkind)).encode()))
+    conc = lambda v: v if isinstance(v, int) else core.concretize_int(v)
+    for i in range(N):
+        for j in range(i):
+            if kinds[i] == kinds[j]:
+                assume(vals[i] != vals[j], 'ids of one type are distinct')
+    ids = [vals[i] if kinds[i] == 0 else str(conc(vals[i])) for i in range(N)]
+    q = qv if qkind == 0 else str(conc(qv))
+    had = '__str__' in core.SymInt.__dict__
+    old = core.SymInt.__dict__.get('__str__')
+    if not is_native():
+        core.SymInt.__str__ = lambda self: str(core.concretize_int(self))
+    try:
+        W = WBS()
+        tasks = [Task(ids[i], name=f't{i}') for i in range(N)]
+        for i in range(N):
+            if parent[i] == -1:
+                W.roots.append(tasks[i])
+            else:
+                tasks[i].parent = tasks[parent[i]]
+        index = {id(t): i for i, t in enumerate(tasks)}
+        check(len(W.tasks) == N, 'C05 ids of different types are different ids: all tasks are members')
+        r = raised = None
+        try:
+            r = W[q]
+        except RuntimeError as e:
+            raised = e
+        except Exception as e:
+            check(False, 'C05 lookup raised another exception type', detail=type(e).__name__)
+            return
+        if raised is None:
+            i = index.get(id(r))
+            check(i is not None, 'C05 lookup returned a non-member')
+            if i is not None:
+                check(kinds[i] == qkind and bool(vals[i] == qv), 'C05 lookup returned a task with another id',
+                      detail=f'key of kind {qkind}, task {i} of kind {kinds[i]}')
+        else:
+            for m in range(N):
+                check(not (kinds[m] == qkind and bool(vals[m] == qv)), 'C05 lookup raised although a member has that id')
+    finally:
+        if not is_native():
+            if had:
+                core.SymInt.__str__ = old
+            else:
+                del core.SymInt.__str__
+
+
 # ---------------------------------------------------------------------------
 # C11: remove, then attach to another WBS
 
